@@ -100,6 +100,9 @@ pub enum RealKind {
     Ripple,
     /// step function (plateaus: many ties)
     Steps,
+    /// the step function as a negated profit: the optimum plateau is 0.0 on one side and -0.0 on
+    /// the other (equal objective values with different bit patterns)
+    SignedSteps,
 }
 
 #[derive(Clone, Debug, Serialize, Deserialize, PartialEq)]
@@ -164,6 +167,14 @@ impl HProblem for RealP {
             RealKind::Shifted => x.iter().enumerate().map(|(i, v)| (v - 0.5 - i as f64 * 0.25).powi(2)).sum::<f64>(),
             RealKind::Ripple => x.iter().map(|v| v.abs() + 0.5 * (1.0 - (3.0 * v).cos())).sum::<f64>(),
             RealKind::Steps => x.iter().map(|v| v.abs().floor()).sum::<f64>(),
+            RealKind::SignedSteps => {
+                let v = x.iter().map(|v| v.abs().floor()).sum::<f64>();
+                if v == 0.0 && x.first().map(|f| *f < 0.0).unwrap_or(false) {
+                    -0.0
+                } else {
+                    v
+                }
+            }
         };
         if v.is_nan() { f64::INFINITY } else { v }
     }
@@ -368,7 +379,7 @@ impl ObjectiveFunction for TspP {
 use crate::rng::Gen;
 
 pub fn gen_real(g: &mut Gen, penalty: bool, max_dim: usize) -> RealSpec {
-    let kind = *g.pick(&[RealKind::Sphere, RealKind::Shifted, RealKind::Ripple, RealKind::Steps]);
+    let kind = *g.pick(&[RealKind::Sphere, RealKind::Shifted, RealKind::Ripple, RealKind::Steps, RealKind::SignedSteps]);
     let (lo, hi) = *g.pick(&[(-5.0, 5.0), (-1.0, 1.0), (0.0, 10.0), (-100.0, 50.0), (-0.001, 0.002)]);
     RealSpec {
         kind,
@@ -389,6 +400,9 @@ pub fn gen_tsp(g: &mut Gen, penalty: bool, min_dim: usize, max_dim: usize, extre
     let mut dist = vec![0.0; dim * dim];
     let scale_mode = g.below(4);
     let asym = g.chance(0.3);
+    // the unit of length is arbitrary: some instances measure the same distances in units
+    // 1e12..1e17 times smaller or larger (tour lengths far above 1/epsilon or far below epsilon)
+    let unit = if extreme && g.chance(0.2) { 10f64.powf(g.f64_in(12.0, 17.0) * if g.chance(0.5) { 1.0 } else { -1.0 }) } else { 1.0 };
     for a in 0..dim {
         for b in (a + 1)..dim {
             let mut d = match scale_mode {
@@ -400,6 +414,7 @@ pub fn gen_tsp(g: &mut Gen, penalty: bool, min_dim: usize, max_dim: usize, extre
             if extreme && g.chance(0.3) {
                 d *= 10f64.powf(g.f64_in(-6.0, 6.0));
             }
+            d *= unit;
             dist[a * dim + b] = d;
             // some instances are asymmetric (a legal travelling-salesperson problem)
             dist[b * dim + a] = if asym && g.chance(0.4) { d * g.f64_in(0.3, 3.0) } else { d };
